@@ -52,6 +52,33 @@ def _rebuild_user_contract(kind, mult, mreq, symbol):
     return _user_contract_class(kind, mult, mreq)(symbol)
 
 
+class UserInstrument(AbstractContract):
+    """One user-defined class for all instruments of a venue: multiplier, cash and margin requirements are
+    properties of the *instance* (the abstract base only asks for properties of these names)."""
+
+    def __init__(self, symbol, mult, cash_req, margin_req):
+        self._symbol = symbol
+        self._mult = float(mult)
+        self._cash_req = float(cash_req)
+        self._margin_req = float(margin_req)
+
+    @property
+    def symbol(self):
+        return self._symbol
+
+    @property
+    def multiplier(self):
+        return self._mult
+
+    @property
+    def cash_requirement(self):
+        return self._cash_req
+
+    @property
+    def margin_requirement(self):
+        return self._margin_req
+
+
 class UN(C.Future):
     """A user-defined monthly future (the documented extension point: subclass Future) that stops trading at
     noon of the 15th of its month - an intraday cut-off, unlike the built-in calendars which all end at midnight -
@@ -78,6 +105,8 @@ def build_contract(spec):
     kind = spec["kind"]
     if kind in ASSET_CLASSES:
         return ASSET_CLASSES[kind](spec["name"])
+    if kind in ("spot", "margined") and spec.get("per_instance"):
+        return UserInstrument(spec["name"], spec.get("mult", 1.0), 1.0 if kind == "spot" else 0.0, 0.0 if kind == "spot" else spec.get("mreq", 0.0))
     if kind in ("spot", "margined"):
         return _user_contract_class(kind, spec.get("mult", 1.0), spec.get("mreq", 0.0))(spec["name"])
     if kind == "future":
